@@ -96,10 +96,14 @@ impl Property for C16 {
         let mut v: Vec<(String, u64)> = ENTRY.iter().map(|e| (format!("entry:{e}"), m)).collect();
         v.push(("secrets>=4".into(), m));
         v.push(("extreme-draw".into(), m));
+        v.push(("fresh-process".into(), 60));
         v
     }
     fn check(&self, suite: SuiteId, case: &Case, ctx: &mut Ctx) -> CheckResult {
         dispatch!(suite, check(case, ctx))
+    }
+    fn extra(&self, _tier: Tier, seed: u64, _known: &Known, out: &mut ExtraOut) {
+        fresh_process_stage(seed, out);
     }
 }
 
@@ -229,7 +233,7 @@ fn run_entry<C: Suite>(entry: u8, st: &Setup<C>, spec: TapeSpec) -> Result<Obs, 
     Ok(obs)
 }
 
-fn check<C: Suite>(case: &Case, ctx: &mut Ctx) -> CheckResult {
+fn make_setup<C: Suite>(case: &Case) -> Result<(u8, Shape, Setup<C>), Failure> {
     let entry = case.entry % 10;
     let mut shape = Shape { n: case.shape.n.max(2), t: case.shape.t.clamp(2, case.shape.n.max(2)) };
     if entry == 6 {
@@ -266,7 +270,11 @@ fn check<C: Suite>(case: &Case, ctx: &mut Ctx) -> CheckResult {
         }
     }
     let idv = if let Some(k) = &keys { k.ids.clone() } else { idv };
-    let st = Setup { shape, idv, keys, sk, sess, helpers, batch };
+    Ok((entry, shape, Setup { shape, idv, keys, sk, sess, helpers, batch }))
+}
+
+fn check<C: Suite>(case: &Case, ctx: &mut Ctx) -> CheckResult {
+    let (entry, shape, st) = make_setup::<C>(case)?;
     let ename = ENTRY[entry as usize];
     ctx.eval(&format!("{ename},{},{}", shape.n, shape.t), true);
     ctx.label(&format!("entry:{ename}"));
@@ -395,4 +403,94 @@ fn check<C: Suite>(case: &Case, ctx: &mut Ctx) -> CheckResult {
         }
     }
     Ok(())
+}
+
+
+// ---------------------------------------------------------------------------------------------
+// fresh-process stage: "with the same source output the whole computation is reproducible bit for bit" also
+// means that the result does not depend on what the process did before (a value cached in a static by an
+// earlier call, possibly for another ciphersuite). Every entry point is run once in this - by now well used -
+// process and once in a brand-new process on the same inputs and the same source output.
+
+fn whole_of<C: Suite>(case: &Case) -> Result<String, Failure> {
+    let (entry, _, st) = make_setup::<C>(case)?;
+    let o = run_entry::<C>(entry, &st, TapeSpec::Random(case.tape_seed))?;
+    Ok(format!("{}:{}", hex::encode(&o.whole), o.consumed))
+}
+
+pub fn whole_dispatch(suite: SuiteId, case: &Case) -> Result<String, Failure> {
+    dispatch!(suite, whole_of(case))
+}
+
+/// `fv c16-fresh <suite> <case json>`: prints the result of the case computed in a fresh process
+pub fn fresh_child(args: &[String]) -> i32 {
+    let suite = match args.first().and_then(|s| SuiteId::from_name(s)) {
+        Some(s) => s,
+        None => return 2,
+    };
+    let case: Case = match args.get(1).and_then(|j| serde_json::from_str(j).ok()) {
+        Some(c) => c,
+        None => return 2,
+    };
+    match whole_dispatch(suite, &case) {
+        Ok(w) => {
+            println!("{w}");
+            0
+        }
+        Err(f) => {
+            eprintln!("{}: {}", f.key, f.msg);
+            3
+        }
+    }
+}
+
+pub fn fresh_process_stage(seed: u64, out: &mut ExtraOut) {
+    let exe = match std::env::current_exe() {
+        Ok(e) => e,
+        Err(e) => {
+            out.inconclusive.push(format!("cannot locate own executable: {e}"));
+            return;
+        }
+    };
+    let mut rng = Sm(seed ^ 0xc16_f4e5);
+    for suite in ALL_SUITES.iter() {
+        for entry in 0..10u8 {
+            let case = Case { entry, shape: Shape { n: 3, t: 2 }, ids: IdSpec { style: ID_STYLES[rng.below(6) as usize], seed: rng.next() }, tape_seed: rng.next(), seed: rng.next() };
+            let here = match whole_dispatch(*suite, &case) {
+                Ok(w) => w,
+                Err(f) => {
+                    out.inconclusive.push(format!("fresh-process stage: in-process run failed: {}", f.msg));
+                    continue;
+                }
+            };
+            let cj = serde_json::to_string(&case).unwrap();
+            let child = std::process::Command::new(&exe).args(["c16-fresh", suite.name(), &cj]).output();
+            out.stats.evaluations += 1;
+            *out.stats.labels.entry("fresh-process".into()).or_insert(0) += 1;
+            match child {
+                Ok(o) if o.status.code() == Some(0) => {
+                    let there = String::from_utf8_lossy(&o.stdout).trim().to_string();
+                    if there != here {
+                        out.violations.push(Violation {
+                            suite: suite.name().to_string(),
+                            failure: Failure {
+                                key: "C16/result-depends-on-process-history".into(),
+                                msg: format!(
+                                    "{} with the same inputs and the same random-source output gives a different result (or draws another number of bytes) in a fresh process than in this process, which had run other calls (other ciphersuites) before: here {} bytes drawn, fresh process {} bytes drawn",
+                                    ENTRY[entry as usize],
+                                    here.rsplit(':').next().unwrap_or("?"),
+                                    there.rsplit(':').next().unwrap_or("?")
+                                ),
+                            },
+                            case: serde_json::to_value(&case).unwrap(),
+                            replay_kind: "case".into(),
+                        });
+                        return;
+                    }
+                }
+                Ok(o) => out.inconclusive.push(format!("fresh process ended with {:?}: {}", o.status.code(), String::from_utf8_lossy(&o.stderr))),
+                Err(e) => out.inconclusive.push(format!("cannot start fresh process: {e}")),
+            }
+        }
+    }
 }
